@@ -645,3 +645,11 @@ RECIPES += [
 RECIPES += [
     ("C13", "break", ["C13-R3"], B, "        d[tid] = np.vstack([vec[8:-1:2], vec[9:-1:2]]).T\n", "        d[tid] = np.vstack([vec[8:-1:2], vec[9:1:2]]).T\n", "rdtabled1 ordinates cut at an absolute index"),
 ]
+
+RECIPES += [
+    ("C13", "break", ["C13-R4"], B, '''    output = [f"SET {setid:d} = "]
+    start = 0
+''', '''    output = [f"SET {setid:d} = "]
+    start = 1
+''', "wtset skips the first id"),
+]
